@@ -8,7 +8,8 @@ plus the frames of frames() below that are valid in a dialect POX itself speaks.
   valid   f itself
   trunc   every truncation f[:L], 0 <= L < len(f)
   byte    every byte position p x every replacement value of a small boundary set
-          {0x00, 0xff, b^0x01, b^0x80, b+1} (quick and thorough), plus ALL 255 alternative values for the
+          {0x00, 0xff, b^0x01, b^0x80, b+1, b-1, b+2, b-2} (quick and thorough; the +-1, +-2 neighbours
+          are what length / count / type fields are most sensitive to), plus ALL 255 alternative values for the
           first 64 bytes (thorough)
   pair    (thorough, frames of <= 400 bytes) every truncation length L x every corrupted byte position p < L x
           {0x00, 0xff, b^0x01}
@@ -99,7 +100,7 @@ def frames ():
 def small_values (b):
   """Replacement values for a byte whose valid value is b (ordered, distinct, never b itself)."""
   out = []
-  for v in (0x00, 0xff, b ^ 0x01, b ^ 0x80, (b + 1) & 0xff):
+  for v in (0x00, 0xff, b ^ 0x01, b ^ 0x80, (b + 1) & 0xff, (b - 1) & 0xff, (b + 2) & 0xff, (b - 2) & 0xff):
     if v != b and v not in out: out.append(v)
   return out
 
@@ -636,7 +637,7 @@ def run (cfg):
   fams = families(cfg)
   rep.rule = ("for each of the %d valid frames (%d bytes in total; mc/refs/pktcorpus.py, one or more per parser "
               "path, plus IGMPv3 reports in POX's host-byte-order dialect): the frame itself; every truncation length 0..len-1; every byte position x replacement values "
-              "{0x00,0xff,b^0x01,b^0x80,b+1}%s; for the %d eth/ipv6/icmpv6 frames the same families once more from the "
+              "{0x00,0xff,b^0x01,b^0x80,b+1,b-1,b+2,b-2}%s; for the %d eth/ipv6/icmpv6 frames the same families once more from the "
               "IPv6 addresses on, with IPv6 payload length and ICMPv6 checksum repaired (the ICMPv6 parser drops bodies "
               "with a wrong checksum). Each mutant is parsed by ethernet(raw=) and via ofp_packet_in pack/unpack -> "
               "PacketIn.parsed, walked along .next, printed (str of every header, dump), re-packed and measured (len of every header), every phase "
